@@ -60,6 +60,20 @@ pub fn key_pool(fresh: usize) -> Vec<KeyInfo> {
     v
 }
 
+/// The pool plus two pairs of Ed25519 keys whose key ids start with the same eight hex digits
+/// (`111ca389...`, `96503fbb...`): link files are named after that prefix only, so such keys are
+/// indistinguishable by file name.  (Found by search; kept out of `key_pool` because generators that
+/// name files after key-id prefixes must treat them with care.)
+pub fn key_pool_twins(fresh: usize) -> Vec<KeyInfo> {
+    let d = keys_dir();
+    let rd = |n: &str| std::fs::read(d.join(n)).unwrap();
+    let mut v = key_pool(fresh);
+    for n in ["twin-1a", "twin-1b", "twin-2a", "twin-2b"] {
+        v.push(KeyInfo::load(n, rd(&format!("{}.pk8.der", n)), SignatureScheme::Ed25519));
+    }
+    v
+}
+
 /// The pool plus an RSA key of another supported modulus size (3072 bits); kept out of `key_pool`
 /// because signing with it is slow.  (ring signs with 2048-4096 bit keys only; the 8192-bit upper bound
 /// of the verification algorithms is covered by the public-only fixture `rsa-8192.spki.der` in C12.)
